@@ -148,6 +148,11 @@ BASES = [
         '1040.state': 'NC', 'nc_d-400.county': 'Wake', 'nc_d-400.nc_residents': 'yes', '1040.filing_status': 'MarriedFilingJointly',
         '1040.number_1098': '1', '1098:0.box_1': '2500', 'nc_d-400.no_consumer_use_tax': 'yes',
     })),
+    Base('B9-low-wage-investor', ['1040'], {
+        '1040.number_w-2': '1', 'w-2:0.box_1': '12000', 'w-2:0.box_2': '600', 'w-2:0.box_5': '12000',
+        '1040.number_1099-div': '1', '1099-div:0.payer': 'Fund', '1099-div:0.box_1a': '9000', '1099-div:0.box_1b': '9000',
+        '1099-div:0.box_2a': '1000', '1099-div:0.box_5': '600',
+    }),
     Base('B7-dense', ['1040'], {
         '1040.number_w-2': '2', 'w-2:1.belongs_to': 'spouse', '1040.filing_status': 'MarriedFilingJointly',
         '1040.number_1099-int': '1', '1040.number_1099-div': '1', '1040.number_1099-g': '1', '1040.number_1098': '1',
